@@ -541,7 +541,7 @@ def run(tier, seed, replay=None):
 
     # ---- code -> spec: random programs (while TLC is running) ---------------------
     t0 = time.time()
-    n_rand = 420 if tier == "quick" else 4500
+    n_rand = 380 if tier == "quick" else 4500
     for k in range(n_rand):
         indep = k % 8 == 7
         p = random_prog(rng, k, independent=indep)
@@ -557,7 +557,7 @@ def run(tier, seed, replay=None):
     phases["waited_for_program_generation"] = round(time.time() - t0, 1)
     t0 = time.time()
     keys = sorted(progs)
-    cap = 400 if tier == "quick" else 2000
+    cap = 360 if tier == "quick" else 2000
     timers = [k for k in keys if progs[k].cby]
     chosen = keys if len(keys) <= cap else rng.sample(keys, cap - min(len(timers), cap // 4)) + \
         rng.sample(timers, min(len(timers), cap // 4))
